@@ -96,18 +96,32 @@ WIDE = {"tickwide": "((unsigned long long)(vp_tick >= %d) << 40)",          # 64
         "tickhalf": "((float)(vp_tick >= %d) / 2)"}
 
 
+SPELL = {"a": "c->a", "b": "c->b"}      # how the top-level thread's variables are spelled (capture variants change it)
+
+
 def c_cond(c):
     if c[0] == "tickge":
         return "(vp_tick >= %d)" % c[2]
     if c[0] in WIDE:
         return WIDE[c[0]] % c[2]
     op = {"lt": "<", "eq": "==", "ge": ">="}[c[0]]
-    return "(c->%s %s %d)" % (c[1], op, c[2])
+    return "(%s %s %d)" % (SPELL[c[1]], op, c[2])
+
+
+LINE_BASES = [10, 250, 65400, 32760, 57000 - 5, 4090, 127, 1, 16380, 49150, 65535 - 80, 255 * 256 - 10]
+emit_count = [0]
 
 
 def emit_c(name, prog, out, depth=0):
+    global SPELL
+    if depth == 0:
+        saved, spell = None, SPELL
+    else:
+        saved, spell = SPELL, {"a": "c->a", "b": "c->b"}       # children always use their own context
+    SPELL = {"a": "c->a", "b": "c->b"}
     for i, kid in enumerate(prog.get("kids", [])):
         emit_c("%s_k%d" % (name, i), kid, out, depth + 1)
+    SPELL = spell
     lines = []
 
     def gen(ss, ind):
@@ -117,9 +131,9 @@ def emit_c(name, prog, out, depth=0):
             if k == "eff":
                 lines.append(p + "VP_EFF(%d);" % s[1])
             elif k == "inc":
-                lines.append(p + "c->%s++;" % s[1])
+                lines.append(p + "%s++;" % SPELL[s[1]])
             elif k == "set":
-                lines.append(p + "c->%s = %d;" % (s[1], s[2]))
+                lines.append(p + "%s = %d;" % (SPELL[s[1]], s[2]))
             elif k == "yield":
                 lines.append(p + "PT_YIELD();")
             elif k == "wait":
@@ -177,7 +191,13 @@ def emit_c(name, prog, out, depth=0):
     gen(prog["main"], 1)
     # pt_t is 16 bits wide and stores __LINE__: restart the line numbering for every function so that a large generated
     # file does not run past 65535 (labels only need to be unique within one function)
-    out.append("#line 10\nstatic int %s(vp_ctx_t *c)\n{\n\tPT_BEGIN(&c->pt);\n%s\n\tPT_END();\n}\n" % (name, "\n".join(lines)))
+    # The base line differs from function to function: a resume point is a line number, and any of 1..65535 may be one.
+    emit_count[0] += 1
+    base = LINE_BASES[emit_count[0] % len(LINE_BASES)] if emit_count[0] % 3 else 1 + (emit_count[0] * 7919) % 65300
+    base = max(1, min(base, 65535 - len(lines) - 6))
+    out.append("#line %d\nstatic int %s(vp_ctx_t *c)\n{\n\tPT_BEGIN(&c->pt);\n%s\n\tPT_END();\n}\n" % (base, name, "\n".join(lines)))
+    if saved is not None:
+        SPELL = saved
 
 
 # ---------------------------------------------------------------- program set
@@ -198,6 +218,8 @@ def blockers():
          ("wu_var", [["wait_until", ["tickge", "", 2]]])]
     for k in range(6):
         B.append(("spawn%d" % k, [["spawn", k], ["if_child_ok", [["eff", 7]], [["eff", 8]]]]))
+    B.append(("wu_a", [["inc", "a"], ["wait_until", ["ge", "a", 1]]]))               # conditions on the thread's own variables
+    B.append(("wu_b", [["set", "b", 2], ["wait_until", ["eq", "b", 2]], ["inc", "b"]]))
     B.append(("spawnchk2", [["spawn_check", 2]]))
     B.append(("spawnchk0", [["spawn_check", 0]]))
     B.append(("call0", [["call", 0]]))
@@ -327,11 +349,66 @@ def write_c(progs, path):
         f.write("static const int vp_nprogs = %d;\n" % len(progs))
 
 
+def write_sweep(path):
+    """every line number 1..65535 as a resume point: straight-line threads of n yields (n = 64 .. 8192: the largest make
+    functions of several hundred KiB of code), each line one effect and one PT_YIELD"""
+    sizes = [64, 256, 1024, 8192, 128, 4096]
+    out, tab, line, k = [], [], 1, 0
+    while line <= 65535:
+        n = min(sizes[k % len(sizes)], 65535 - line + 1)
+        body = "\n".join("(*acc)++; PT_YIELD();" for _ in range(n))
+        first = line
+        # PT_BEGIN sits on the line before the first yield (line 0 does not exist: the very first function starts at 2)
+        if first == 1:
+            first, n = 2, n - 1
+            body = "\n".join("(*acc)++; PT_YIELD();" for _ in range(n))
+        out.append("#line %d\nstatic int sweep%d(pt_t *pt, long *acc) { PT_BEGIN(pt);\n%s\n(*acc)++; PT_END(); }\n" % (first - 1, k, body))
+        tab.append((k, first, n))
+        line = first + n
+        k += 1
+    with open(path, "w") as f:
+        f.write("/* generated by tools/ptgen.py - do not edit */\n" + "\n".join(out))
+        f.write("\nstatic const struct { int (*fn)(pt_t *, long *); int first, n; } vp_sweep[] = {\n%s\n};\n"
+                % ",\n".join("\t{ sweep%d, %d, %d }" % t for t in tab))
+        f.write("static const int vp_nsweep = %d;\n" % len(tab))
+
+
+COMMON_NAMES = ["ready", "done", "res", "ret", "r", "tmp", "cond", "i", "n", "x", "state", "pt", "child", "result", "rc", "ok",
+                "flag", "expired", "timeout", "thread", "s", "p", "t", "v", "val", "lc", "status", "line", "self", "ctx"]
+
+
+def write_capture(progs, names, path):
+    """the same programs with the top-level thread's variable a kept in a file-scope variable of a given name (loaded from and
+    stored back to the context around every invocation): an identifier of the user's own may be any name the language allows"""
+    global SPELL
+    out, tab = [], []
+    out.append("static int %s;\n" % ", ".join("vpcap_dummy" if False else n for n in names))
+    # programs whose blocking macros take a condition on the thread's own variable
+    wu = [i for i, p in enumerate(progs) if p["name"].endswith(("_wu_a", "_wu_b"))]
+    other = [i for i, p in enumerate(progs) if p["name"].startswith(("loop_exit_", "fail_after_"))]
+    for j, nm in enumerate(names):
+        for q in range(4):
+            i = wu[(j * 3 + q * 7) % len(wu)] if q < 3 else other[(j * 5) % len(other)]
+            SPELL = {"a": nm, "b": "c->b"}
+            emit_c("cap%d_%d" % (j, q), progs[i], out)
+            SPELL = {"a": "c->a", "b": "c->b"}
+            out.append("static int cap%d_%d_w(vp_ctx_t *c) { %s = c->a; int vpw_ret = cap%d_%d(c); c->a = %s; return vpw_ret; }\n" % (j, q, nm, j, q, nm))
+            tab.append(("cap%d_%d_w" % (j, q), i + 1))
+    with open(path, "w") as f:
+        f.write("/* generated by tools/ptgen.py - do not edit */\n" + "\n".join(out))
+        f.write("\nstatic int (*const vp_progs[])(vp_ctx_t *) = {\n%s\n};\n" % ",\n".join("\t" + t[0] for t in tab))
+        f.write("static const int vp_progidx[] = { %s };\n" % ", ".join(str(t[1]) for t in tab))
+        f.write("static const int vp_nprogs = %d;\n" % len(tab))
+
+
 def main():
     tag, seed, nrandom, tla_path, c_path = sys.argv[1], int(sys.argv[2]), int(sys.argv[3]), sys.argv[4], sys.argv[5]
     progs = systematic() + randoms(seed, nrandom)
     write_tla(progs, tla_path, "ProtoProgs_" + tag)
     write_c(progs, c_path)
+    write_sweep(c_path.replace(".c", "_sweep.c"))
+    names = COMMON_NAMES + [n for n in sys.argv[6:] if n not in COMMON_NAMES]
+    write_capture(progs, names, c_path.replace(".c", "_capture.c"))
     json.dump([{"name": p["name"], "main": p["main"]} for p in progs], open(c_path + ".json", "w"))
     print(len(progs))
 
